@@ -1,0 +1,30 @@
+//! Verification hooks, compiled only with `--cfg rpm_verif` (never in a normal build).
+//!
+//! They let an external harness pin two inputs the library otherwise takes from its
+//! environment: the clock behind `Timestamp::now()` and the size above which the builder
+//! switches to the large-file (stripped cpio) archive format.
+use std::cell::Cell;
+
+thread_local! {
+    static NOW: Cell<Option<u32>> = const { Cell::new(None) };
+    static LARGE_FILE_THRESHOLD: Cell<Option<u64>> = const { Cell::new(None) };
+}
+
+/// Pin `Timestamp::now()` for the current thread (`None` restores the system clock).
+pub fn set_now(t: Option<u32>) {
+    NOW.with(|c| c.set(t));
+}
+
+pub(crate) fn now_override() -> Option<u32> {
+    NOW.with(|c| c.get())
+}
+
+/// Make the builder use the large-file archive format when the combined file size exceeds
+/// `threshold` (`None` restores the real limit of `u32::MAX` bytes).
+pub fn set_large_file_threshold(threshold: Option<u64>) {
+    LARGE_FILE_THRESHOLD.with(|c| c.set(threshold));
+}
+
+pub(crate) fn large_file_override(combined_file_sizes: u64) -> Option<bool> {
+    LARGE_FILE_THRESHOLD.with(|c| c.get()).map(|t| combined_file_sizes > t)
+}
